@@ -55,9 +55,8 @@ def c01_scenarios(rng, n):
             pre = "/".join("x%d" % k for k in range(depth)) + "/"
             text = b""
             for x in s["secs"]:
-                text += x["text"].replace((x["path"] + ".orig").encode("latin-1"), (pre + x["path"] + ".orig").encode("latin-1")) \
-                                 .replace(("+++ " + x["path"]).encode("latin-1"), ("+++ " + pre + x["path"]).encode("latin-1")) \
-                                 .replace(("--- " + x["path"] + "\t").encode("latin-1"), ("--- " + pre + x["path"] + "\t").encode("latin-1"))
+                text += x["text"].replace(("a/" + x["path"]).encode("latin-1"), (pre + x["path"]).encode("latin-1")) \
+                                 .replace(("b/" + x["path"]).encode("latin-1"), (pre + x["path"]).encode("latin-1"))
             if "stdin" in s:
                 s["stdin"] = text
             else:
